@@ -612,6 +612,11 @@ namespace Dune {
           public std::integral_constant<bool, IsNumber<T>::value>{
   };
 
+  template<class T, std::size_t S, std::size_t A>
+  struct HasNaN<LoopSIMD<T,S,A>> :
+          public std::integral_constant<bool, HasNaN<T>::value>{
+  };
+
 #ifdef CLANG_WARNING_DISABLED
 #  pragma clang diagnostic pop
 #  undef CLANG_WARNING_DISABLED
